@@ -225,7 +225,7 @@ func c12Exec(t map[string]any, idx int) map[string]any {
 }
 
 func C12(c *core.Ctx) {
-	c.Rule = "case = (placement {whole disk, GPT partition, MBR partition}, history of 0..D CreateFilesystem calls over {fat12,fat16,fat32,ext4,iso9660,squashfs} on the same range (stale bytes of the previous type stay), size class {8 MiB, smallest size the last type accepts, largest size it accepts up to 600 MiB}), all enumerated by TLC (D = 2 quick, 3 thorough); the disk is re-opened read-only with default options and GetFilesystem / GetPartitionTable are asked; non-trivial = at least one Create accepted (distinct key = tuple)"
+	c.Rule = "case = (placement {whole disk, GPT partition, MBR partition}, history of 0..D CreateFilesystem calls over {fat12,fat16,fat32,ext4,iso9660,squashfs} on the same range (stale bytes of the previous type stay), size class {8 MiB, smallest size the last type accepts, largest size it accepts up to 600 MiB}), all enumerated by TLC (D = 2 quick, 3 thorough); the disk is re-opened read-only with default options and GetFilesystem / GetPartitionTable are asked; non-trivial = at least one Create accepted (distinct key = tuple); plus the composition behaviours of Disk.tla (three slots, GPT/MBR tables naming subsets of them, filesystems of all six types created, populated, raw-copied and overwritten; after every call every named slot must report the type, label and files the model predicts and the table must be the one written)"
 	c.Assumptions = []string{"ISO9660 / squashfs are created the documented way (LogicalBlocksize set to 2048 / 4096 for CreateFilesystem); labels are compared right-trimmed; squashfs has no label", "size thresholds found by bisection of Create's acceptance in [16 KiB, 600 MiB]"}
 	mc, err := tlc.Run(tlc.Opts{Module: "Probe", Config: "Probe_MC.cfg", Workers: 2})
 	if err != nil {
@@ -273,4 +273,7 @@ func C12(c *core.Ctx) {
 	lim := map[string]any{}
 	c12Limits.Range(func(k, v any) bool { lim[k.(string)] = v; return true })
 	c.Extra["create_size_limits"] = lim
+	// the composition (Disk.tla): several partitions, filesystems created / rebuilt / copied in them,
+	// the table rewritten in between (table, fs and result clauses of Disk_Trace)
+	dkRunAll(c, "C12")
 }
